@@ -142,7 +142,8 @@ class Run:
         for v in res.violations:
             hit = None
             for f in listed:
-                if f.get("rule") == v["rule"] and sig_matches(f.get("signature", {}), v["sig"]):
+                fr = f.get("rule")
+                if (fr == v["rule"] or (isinstance(fr, list) and v["rule"] in fr)) and sig_matches(f.get("signature", {}), v["sig"]):
                     hit = f
                     break
             if hit is None:
